@@ -8,7 +8,6 @@ package world
 import (
 	"encoding/json"
 	"fmt"
-	"sort"
 	"strings"
 	"time"
 	"unsafe"
@@ -115,10 +114,11 @@ func (e EventRec) String() string {
 }
 
 type World struct {
-	L      *spine.DeviceLocal
-	Peers  map[string]*Peer
-	events []EventRec
-	rec    *recorder
+	L       *spine.DeviceLocal
+	Peers   map[string]*Peer
+	Writers []*Writer // every writer ever handed to the stack (a reconnect creates "A#2", ...)
+	events  []EventRec
+	rec     *recorder
 }
 
 type recorder struct{ w *World }
@@ -186,7 +186,18 @@ func AddLocalFeature(e api.EntityLocalInterface, ft model.FeatureTypeType, role 
 
 // Connect sets up a connection for a peer (the stack sends its discovery read).
 func (w *World) Connect(ski, addr string) *Peer {
-	p := &Peer{Ski: ski, Addr: addr, W: &Writer{Name: ski}, Wd: w}
+	name := ski
+	n := 1
+	for _, x := range w.Writers {
+		if x.Name == ski || strings.HasPrefix(x.Name, ski+"#") {
+			n++
+		}
+	}
+	if n > 1 {
+		name = fmt.Sprintf("%s#%d", ski, n)
+	}
+	p := &Peer{Ski: ski, Addr: addr, W: &Writer{Name: name}, Wd: w}
+	w.Writers = append(w.Writers, p.W)
 	w.L.SetupRemoteDevice(ski, p.W)
 	p.Dev = w.L.RemoteDeviceForSki(ski)
 	w.Peers[ski] = p
@@ -460,31 +471,29 @@ func Canon(conn string, d model.DatagramType) Out {
 
 // Mark remembers the current length of every writer and of the event log.
 type Mark struct {
-	w  map[string]int
+	w  []int
 	ev int
 }
 
 func (w *World) Mark() Mark {
-	m := Mark{w: map[string]int{}, ev: w.NEvents()}
-	for k, p := range w.Peers {
-		m.w[k] = p.W.Len()
+	m := Mark{ev: w.NEvents()}
+	for _, x := range w.Writers {
+		m.w = append(m.w, x.Len())
 	}
 	return m
 }
 
-// Since returns everything written on any connection since the mark, in
-// per-connection order, connections sorted by name.
+// Since returns everything written on any connection (including connections
+// that have been removed meanwhile) since the mark, in per-connection order.
 func (w *World) Since(m Mark) []Out {
-	var keys []string
-	for k := range w.Peers {
-		keys = append(keys, k)
-	}
-	sort.Strings(keys)
 	var out []Out
-	for _, k := range keys {
-		p := w.Peers[k]
-		for _, d := range p.W.Datagrams(m.w[k]) {
-			out = append(out, Canon(k, d))
+	for i, x := range w.Writers {
+		from := 0
+		if i < len(m.w) {
+			from = m.w[i]
+		}
+		for _, d := range x.Datagrams(from) {
+			out = append(out, Canon(x.Name, d))
 		}
 	}
 	return out
